@@ -26,7 +26,9 @@ macro_rules! with_check {
             "C18" => $f::<props::core::C18>($($arg),*),
             "C19" => $f::<props::c16::C19>($($arg),*),
             "C10" => $f::<props::c10::C10>($($arg),*),
+            "C11" => $f::<props::c11::C11>($($arg),*),
             "C12" => $f::<props::c12::C12>($($arg),*),
+            "C13" => $f::<props::c13::C13>($($arg),*),
             "C14" => $f::<props::c14::C14>($($arg),*),
             other => {
                 eprintln!("unknown check {other}");
